@@ -610,7 +610,7 @@ func c02Reject(c *Ctx) {
 			}) && r.has(func(a an.PathAtom) bool {
 				return cmpAtom(a, func(x, y *an.Expr, op token.Token) bool {
 					return op == token.NEQ && x.Typ != nil && strings.HasSuffix(typeStr(x.Typ), "*plugin.Prefix") && y.Typ != nil && strings.HasSuffix(typeStr(y.Typ), "*plugin.Prefix")
-				})
+				}) || (isIndexCompare(a) && func() bool { _, _, op, _ := effCmp(a); return op == token.NEQ }())
 			})
 		}},
 		{"routes-wildcard-once", "parsePlugins", "the ::/0 wildcard route is given at most once", func(r rejection) bool {
@@ -656,7 +656,7 @@ func c02Reject(c *Ctx) {
 			}) && r.has(func(a an.PathAtom) bool {
 				return cmpAtom(a, func(x, y *an.Expr, op token.Token) bool {
 					return op == token.NEQ && x.Typ != nil && strings.HasSuffix(typeStr(x.Typ), "*plugin.Route") && y.Typ != nil && strings.HasSuffix(typeStr(y.Typ), "*plugin.Route")
-				})
+				}) || (isIndexCompare(a) && func() bool { _, _, op, _ := effCmp(a); return op == token.NEQ }())
 			})
 		}},
 		{"mtu-out-of-range", "parsePlugins", "0 <= mtu <= 65536", func(r rejection) bool {
@@ -677,7 +677,7 @@ func c02Reject(c *Ctx) {
 		{"rdnss-not-ipv6", "parseRDNSS", "servers are IPv6", func(r rejection) bool { return lastIs(r, atomCall(".Is6", false)) }},
 		{"rdnss-4in6", "parseRDNSS", "servers are IPv6 (not IPv4-mapped)", func(r rejection) bool { return lastIs(r, atomCall(".Is4In6", true)) }},
 		{"rdnss-wildcard-twice", "parseRDNSS", "at most one ::", func(r rejection) bool {
-			return r.has(atomCall(".IsUnspecified", true)) && lastIs(r, func(a an.PathAtom) bool { return a.Pos && a.Cond.Op == an.OpLoop })
+			return r.has(atomCall(".IsUnspecified", true)) && lastIs(r, func(a an.PathAtom) bool { return a.Pos && (a.Cond.Op == an.OpLoop || isLoopFlagAtom(a, "auto")) })
 		}},
 		{"rdnss-duplicate", "parseRDNSS", "servers unique", func(r rejection) bool {
 			return lastIs(r, func(a an.PathAtom) bool { return a.Pos && filterKind(a) == "Seen" })
@@ -1201,7 +1201,32 @@ func isPtrCompare(a an.PathAtom, typ string) bool {
 	if !ok || (op != token.EQL && op != token.NEQ) {
 		return false
 	}
-	return x.Typ != nil && y.Typ != nil && strings.HasSuffix(typeStr(x.Typ), typ) && strings.HasSuffix(typeStr(y.Typ), typ)
+	if x.Typ != nil && y.Typ != nil && strings.HasSuffix(typeStr(x.Typ), typ) && strings.HasSuffix(typeStr(y.Typ), typ) {
+		return true
+	}
+	return isIndexCompare(a)
+}
+
+// isIndexCompare matches `i == j` / `i != j` between the counters of two
+// loops: the index form of "skip the pair of an element with itself".
+func isIndexCompare(a an.PathAtom) bool {
+	x, y, op, ok := effCmp(a)
+	if !ok || (op != token.EQL && op != token.NEQ) {
+		return false
+	}
+	isIdx := func(e *an.Expr) bool {
+		nf, okN := an.Norm(e)
+		if !okN || nf.Mode != an.ModeNone || len(nf.Lin.T) != 1 {
+			return false
+		}
+		for s := range nf.Lin.T {
+			if !strings.HasPrefix(s, "loop:") {
+				return false
+			}
+		}
+		return true
+	}
+	return isIdx(x) && isIdx(y) && x.String() != y.String()
 }
 
 // inlineHelpers: in parseInterface, loop-free module-local helpers (range
@@ -1262,8 +1287,10 @@ func boundedIndex(fn *ssa.Function, x *ssa.IndexAddr) bool {
 				continue
 			}
 			if call, ok := bo.Y.(*ssa.Call); ok {
-				if b, ok := call.Call.Value.(*ssa.Builtin); ok && b.Name() == "len" && len(call.Call.Args) == 1 && call.Call.Args[0] == x.X {
-					found = true
+				if b, ok := call.Call.Value.(*ssa.Builtin); ok && b.Name() == "len" && len(call.Call.Args) == 1 {
+					if call.Call.Args[0] == x.X || sameFieldLoad(call.Call.Args[0], x.X) {
+						found = true
+					}
 				}
 			}
 		}
@@ -1409,4 +1436,48 @@ func errorDiscipline(c *Ctx, rule string, f *ssa.Function, label, oracle, bad st
 			oracle, bad)
 	}
 	return nErr
+}
+
+// sameFieldLoad reports whether two values are loads of the same field path of
+// the same parameter or local struct, none of whose fields the function writes
+// (a slice field read once for len() and once for indexing).
+func sameFieldLoad(a, b ssa.Value) bool {
+	path := func(v ssa.Value) (ssa.Value, string, bool) {
+		ld, ok := v.(*ssa.UnOp)
+		if !ok || ld.Op != token.MUL {
+			return nil, "", false
+		}
+		s := ""
+		cur := ld.X
+		for {
+			fa, ok := cur.(*ssa.FieldAddr)
+			if !ok {
+				break
+			}
+			s = fmt.Sprintf(".%d", fa.Field) + s
+			cur = fa.X
+		}
+		return cur, s, s != ""
+	}
+	ra, pa, oka := path(a)
+	rb, pb, okb := path(b)
+	if !oka || !okb || ra != rb || pa != pb {
+		return false
+	}
+	// the root is a spilled value parameter or a local that is only initialised once (no field stores)
+	al, ok := ra.(*ssa.Alloc)
+	if !ok || al.Referrers() == nil {
+		_, isParam := ra.(*ssa.Parameter)
+		return isParam
+	}
+	for _, r := range *al.Referrers() {
+		if fa, ok := r.(*ssa.FieldAddr); ok && fa.Referrers() != nil {
+			for _, u := range *fa.Referrers() {
+				if st, ok := u.(*ssa.Store); ok && st.Addr == ssa.Value(fa) {
+					return false
+				}
+			}
+		}
+	}
+	return true
 }
